@@ -23,7 +23,8 @@ RULE = ("simulator x admissible parameters (birth > death >= 0, tip counts 1.., 
         "one ulp below 1, or random.Random(seed)); also mean_kingman_tree, discrete_birth_death_tree with a generation limit, the entry "
         "options is_add_extinct_attr / repeat_until_success=False (compared) and is_assign_*_taxa=False (clause d only), star_tree; on the "
         "scripted stream every argument of rng.expovariate and the coalescent frames read back off Kingman trees are compared with "
-        "the model; thorough adds every decision tape of bounded depth (small scope) and "
+        "the model; a size sweep runs every simulator (contained coalescent with many surviving lineages: short tip branches / large "
+        "populations) at tip / gene / lineage counts from {31,32,33,40,63,64,65,100,128,200,256}; thorough adds every decision tape of bounded depth (small scope) and "
         "fresh-interpreter runs; non-trivial = at least one death event or restart, or >= 4 tips/genes")
 MODELLED_NOT_VERIFIED = [
     "C18: the Lean event loops (bdRun, fbdRun, pbRun, coalesce, kingman, contained) are hand-written from birthdeath.birth_death_tree/"
@@ -650,6 +651,18 @@ def divergence(paths, a, b):
     return None
 
 
+def sp_ultrametric(sp):
+    """every non-root branch has a length and all tips of the containing tree are equidistant from its root"""
+    n = len(sp["par"])
+    if any(sp["len"][i] is None for i in range(1, n)):
+        return False
+    depth = [Fraction(0)] * n
+    for i in range(1, n):
+        depth[i] = depth[sp["par"][i]] + Fraction(sp["len"][i])
+    tips = [depth[i] for i in range(n) if i not in sp["par"]]
+    return len(set(tips)) == 1
+
+
 def o_contained(gene_tree, sp, exact, problems):
     paths = sp_paths(sp)
     species_of = lambda lf: lf.taxon.label.rsplit("_", 1)[0]
@@ -1174,6 +1187,10 @@ def one_case(ctx, dendropy, case, pending, compare=True):
                 problems.append(("tip_count", "%d genes were to be placed, gene tree has %d leaves" % (want, nl)))
             sp_t, _ = species_tree(dendropy, p["sp"])
             o_contained(tree, sp_t, exact, problems)
+            if sp_ultrametric(p["sp"]):
+                # all genes are sampled at the tips (time 0) of a containing tree whose tips are equidistant from its root, and a
+                # lineage's edges add up to the time it has travelled: the gene tree is ultrametric
+                o_equidistant(tree, exact, problems, "gene copies (ultrametric containing tree)")
             nontrivial = nl >= 4
     ctx.case([sim, case["params"], case["rng"]], nontrivial, sample={"case": case} if len(json.dumps(case)) < 1500 else None,
              kind=sim + "/" + case["rng"]["kind"])
@@ -1499,6 +1516,123 @@ def gen_cont(rng, max_leaves):
     return {"sim": "ckt", "params": p, "rng": gen_rngspec(rng, 0.3)}
 
 
+# ------------------------------------------------------------------------------------------------ size sweep
+# size-dependent code paths (thresholds such as "32 or more lineages", chunked / deferred bookkeeping, recursion depth) are
+# invisible to small instances: every simulator is also run at tip / gene / lineage counts around powers of two and beyond
+SIZES = [31, 32, 33, 40, 63, 64, 65, 100, 128, 200, 256]
+SWEEP_KINDS = ["cont", "ckt", "cont", "ckt", "bd", "fbd", "king", "pb", "mking", "cont", "dbd", "gsa", "rv", "ckt", "bd", "king"]
+
+
+def gen_big_species(rng, total):
+    """a containing tree of few species with MANY gene copies in which most lineages survive into the ancestral populations:
+    short tip branches and / or large populations.  Returns the species spec with `ng` summing to about `total`."""
+    k = rng.choice([1, 2, 2, 3, 3, 4])
+    shape = tu.rand_shape(rng, k, p_poly=rng.choice([0.0, 0.0, 0.3]), p_unary=rng.choice([0.0, 0.0, 0.2]))
+    par, kids_of = [], {}
+
+    def go(sh, parent):
+        i = len(par)
+        par.append(parent)
+        kids_of[i] = [go(c, i) for c in sh]
+        return i
+    go(shape, -1)
+    n = len(par)
+    tiny = [Fraction(1, 64), Fraction(1, 32), Fraction(1, 16), Fraction(1, 8), Fraction(1, 4)]
+    lens = [None] * n
+    if rng.random() < 0.6:
+        # ultrametric: node heights; the lowest internal nodes sit just above the tips
+        height = [Fraction(0)] * n
+        for i in reversed(range(n)):
+            if kids_of[i]:
+                low = all(not kids_of[c] for c in kids_of[i])
+                height[i] = max(height[c] for c in kids_of[i]) + (rng.choice(tiny) if low else Fraction(rng.randint(1, 8), 4))
+        for i in range(1, n):
+            lens[i] = str(height[par[i]] - height[i])
+    else:
+        for i in range(1, n):
+            lens[i] = str(rng.choice(tiny) if not kids_of[i] else rng.choice(tiny + [Fraction(1, 2), Fraction(1), Fraction(2), Fraction(0)]))
+    lens[0] = rng.choice([None, "0", "1"])
+    big = rng.random() < 0.5
+    pops = [rng.choice([100, 100, 5, 3, None] if big else [None, None, 1, 2, 3, 5, 100]) for _ in range(n)]
+    leaves = [i for i in range(n) if not kids_of[i]]
+    per = max(1, total // len(leaves))
+    ng = [0] * n
+    for i in leaves:
+        ng[i] = max(1, per + rng.choice([0, 0, 0, 1, -1, 2]))
+    return {"par": par, "len": lens, "pop": pops, "ng": ng}
+
+
+def gen_sweep(rng, kind, max_size):
+    """one case of simulator `kind` at a size from SIZES (<= max_size)"""
+    size = rng.choice([x for x in SIZES if x <= max_size])
+    spec = gen_rngspec(rng, 0.35)
+    if kind in ("bd", "fbd"):
+        b = Fraction(rng.choice(["1", "2", "1/2", "3"]))
+        d = b * rng.choice([Fraction(0), Fraction(0), Fraction(1, 4), Fraction(1, 2)])
+        p = {"b": str(b), "d": str(d), "n": size, "ns": rng.choice([None, ["t", size], ["T", size // 2], ["sp", size + 3]])}
+        if kind == "bd":
+            p["via"] = rng.choice(["treesim", "birthdeath"])
+            if rng.random() < 0.25:
+                p.pop("n")
+                p["nt"] = size
+                p["retain"] = True
+        return {"sim": kind, "params": p, "rng": spec}
+    if kind == "gsa":
+        b = Fraction(rng.choice(["1", "2"]))
+        n = rng.choice([x for x in SIZES if x <= min(max_size, 65)])
+        p = {"b": str(b), "d": str(b * rng.choice([Fraction(0), Fraction(1, 4)])), "n": n, "g": n + rng.randint(1, 4), "ns": None}
+        if rng.random() < 0.5:
+            p["fast"] = True
+        return {"sim": "gsa", "params": p, "rng": spec}
+    if kind == "pb":
+        return {"sim": "pb", "params": {"ns": [rng.choice(["t", "sp"]), size], "b": rng.choice(RATES)}, "rng": spec}
+    if kind == "king":
+        return {"sim": "king", "params": {"ns": [rng.choice(["t", "sp"]), size], "pop": rng.choice([1, 2, 5, 100, 0, "1/2"])}, "rng": spec}
+    if kind == "mking":
+        return {"sim": "mking", "params": {"ns": ["sp", min(size, 128)], "pop": rng.choice([1, 2, 5, 0])}, "rng": spec}
+    if kind == "dbd":
+        return {"sim": "dbd", "params": {"b": rng.choice(["1/4", "3/8", "1/2"]), "d": rng.choice(["0", "1/8"]), "n": min(size, 128),
+                                         "repeat": True}, "rng": spec}
+    if kind == "rv":
+        k = size
+        args = [rng.choice([0.0, 0.5, 1.0, 1.0, 2.0, 0.25]) for _ in range(k)]
+        args[rng.randrange(k)] = 1.0
+        fn = rng.choice(["weighted_index_choice", "weighted_choice", "star_tree"])
+        if fn == "star_tree":
+            return {"sim": "rv", "params": {"fn": fn, "args": [size]}, "rng": {"kind": "real", "seed": rng.getrandbits(32)}}
+        return {"sim": "rv", "params": {"fn": fn, "args": args},
+                "rng": gen_script(rng, [rng.choice(["ulp", "zero", "hi", "lo"])]) if rng.random() < 0.5 else {"kind": "real", "seed": rng.getrandbits(32)}}
+    # contained coalescent: lineage counts entering the ancestral populations around the sizes
+    sp = gen_big_species(rng, size)
+    if kind == "cont":
+        return {"sim": "cont", "params": {"sp": sp}, "rng": spec}
+    strat = rng.choice(["fixed_per_population", "fixed_per_population", "random_uniform", "node_attribute"])
+    p = {"sp": sp, "strategy": strat, "decorate": rng.random() < 0.5}
+    nleaves = len([i for i in range(len(sp["par"])) if i not in sp["par"]])
+    if strat == "fixed_per_population":
+        p["num_genes"] = max(1, size // nleaves)
+    elif strat == "random_uniform":
+        p["num_genes"] = size
+    return {"sim": "ckt", "params": p, "rng": spec}
+
+
+def size_sweep(ctx, dendropy, pending, count, seconds, max_size=256):
+    """`count` cases (at most `seconds`), the simulators taken in turn so that every one is reached in every run"""
+    import time as _time
+    t_end = _time.time() + seconds
+    start = ctx.rng.randrange(len(SWEEP_KINDS))
+    for k in range(count):
+        if _time.time() > t_end or ctx.out_of_time():
+            break
+        case = gen_sweep(ctx.rng, SWEEP_KINDS[(start + k) % len(SWEEP_KINDS)], max_size)
+        case["sweep"] = True
+        one_case(ctx, dendropy, case, pending)
+        ctx.count("size_sweep_cases")
+        if len(pending) >= 60:
+            flush(ctx, pending)
+    flush(ctx, pending)
+
+
 def gen_rv(rng):
     fn = rng.choice(["discrete_time_to_coalescence", "time_to_coalescence", "geometric_rv", "poisson_rv", "binomial_rv",
                      "num_poisson_events", "sample_multinomial", "weighted_index_choice", "weighted_choice", "poisson_rv",
@@ -1640,6 +1774,8 @@ def run(ctx):
     n_iter = ctx.pick(2400, 150000)
     max_n = ctx.pick(10, 30)
     fresh = []
+    # size-dependent code paths: a few large instances of every simulator first
+    size_sweep(ctx, dendropy, pending, ctx.pick(64, 900), ctx.pick(12, 150))
     for k in range(n_iter):
         if ctx.out_of_time():
             break
@@ -1725,6 +1861,8 @@ def search(ctx, broken):
         one_case(ctx, dendropy, case, pending)
         ctx.count("search_cases")
     flush(ctx, pending)
+    if not ctx.failures:
+        size_sweep(ctx, dendropy, pending, ctx.pick(64, 600), ctx.pick(12, 120))
 
 
 def replay(ctx, rec):
